@@ -226,3 +226,22 @@ def model_coll(repo, cls_qual: str, field: str, items):
 
 def host_entry(repo, sock, addr):
     return model_elem(repo, "cascade.executor.comms.ReliableSender", "hosts", (sock, addr))
+
+
+def model_ret(repo, func_qual: str, values: tuple):
+    """A return value of `func_qual` in the representation its return annotation declares (NamedTuple / dataclass / plain tuple)."""
+    from ..terms import NTuple
+    fi = repo.funcs.get(func_qual)
+    ann = fi.node.returns if fi is not None else None
+    if ann is not None:
+        for n in ast.walk(ann):
+            if isinstance(n, (ast.Name, ast.Attribute)):
+                q = repo.resolve_expr(fi.module, n)
+                if q in repo.classes:
+                    c2 = repo.classes[q]
+                    names = [st.target.id for st in c2.node.body if isinstance(st, ast.AnnAssign) and isinstance(st.target, ast.Name)]
+                    if any(b.split(".")[-1] == "NamedTuple" for b in repo.class_mro(q)[1:]) and len(names) == len(values):
+                        return NTuple(values, names, q)
+                    if len(names) == len(values) and any("dataclass" in ast.unparse(d) for d in c2.node.decorator_list):
+                        return Obj(q, dict(zip(names, values)))
+    return tuple(values)
